@@ -83,6 +83,20 @@ def cases(tier, seed, phase):
             stream = b''.join(tup) + b'\r\n.\r\n' + rng.choice([b'', b'NOOP\r\n', b'.\r\n', b'..a\r\n.\r\n'])
             for b0, cuts in list(seg_variants(rng, 64, False))[:4]:
                 yield {'kind': 'raw', 'stream': stream.hex(), 'buf0frac': b0, 'cutfracs': cuts}
+    # long lines: a line of L bytes (around the powers of two a reader might buffer by) followed by a dot-leading tail, cut
+    # exactly at, just before and just after L, in recv-sized bursts, and with the long line not at the start
+    lens = [1023, 1024, 1025, 4095, 4096, 4097, 8191, 8192, 8193, 12288, 16384] + ([2048, 32768, 65536, 65537] if tier == 'thorough' else [])
+    tails = [b'.tail\r\nmore\r\n', b'.\r\nMAIL FROM:<evil@x>\r\n', b'\r\n.x\r\n', b'..\r\n', b'.', b'\r', b'\n.\r\nx']
+    for L in lens:
+        for ti, tail in enumerate(tails):
+            for pre in (b'', b'x\r\n', b'.\r\n'):
+                idx += 1
+                msg = pre + b'a' * L + tail
+                off = len(pre) + (1 if pre.startswith(b'.') else 0) + L      # wire offset of the end of the long run (dot-stuffing of `pre`)
+                parts = [msg] if (L + ti) % 2 else [pre, b'a' * L + tail] if pre else [msg]
+                for cuts in ([], [off], [off - 1], [off + 1], [off, off + 1], [4096, 8192, 12288], [off - 4096, off] if off > 4096 else [off]):
+                    yield {'kind': 'msg', 'parts': [p.hex() for p in parts], 'trail': [b'', b'NOOP\r\n'][idx % 2].hex(),
+                           'buf0frac': 0, 'cutfracs': [], 'abscuts': cuts, 'long': True}
     # random 8-bit messages, sizes around the recv size
     nrand = 1500 if tier == 'quick' else 40000
     for j in range(nrand):
@@ -120,6 +134,8 @@ def rand_case(seed, j, v):
 def resolve_seg(stream, case):
     """buf0frac / cutfracs are expressed on a 0..64 scale unless the stream is short (then they are offsets)."""
     n = len(stream)
+    if 'abscuts' in case:
+        return b'', cut(stream, [c for c in case['abscuts'] if 0 < c < n])
     if n <= 64:
         b0 = min(case['buf0frac'], n)
         cuts = [c for c in case['cutfracs'] if c < n]
@@ -222,6 +238,8 @@ def run_case(case, model):
             'buf0' if buf0 else 'nobuf0']
     if msg is not None and len(case['parts']) > 1:
         tags.append('multipart')
+    if case.get('long'):
+        tags.append('long-line')
     key = (case['kind'], case.get('stream') or tuple(case['parts']), case.get('trail'), case['buf0frac'],
-           tuple(case['cutfracs'])) if n else None
+           tuple(case['cutfracs']), tuple(case.get('abscuts', ()))) if n else None
     return CaseResult(mismatch, hits, key, tags)
